@@ -614,6 +614,46 @@ func Build(p Prog, seed int64, failSlot int, failWhen string, tmpdir string) (*B
 			}
 			m.SetGenHeaderPreformatted(mail.Header("X-Verif-Pre"), pv)
 			names["X-Verif-Pre"] = true
+		case "replyto":
+			if err := m.ReplyToFormat(v, "reply@from.test"); err != nil {
+				b.SetErr = append(b.SetErr, "replyto")
+			} else {
+				names["Reply-To"] = true
+				b.HdrWant["Reply-To:name"] = v
+			}
+		case "envfrom": // the envelope sender is no header field while a From exists
+			if err := m.EnvelopeFromFormat(v, "bounce@from.test"); err != nil {
+				b.SetErr = append(b.SetErr, "envfrom")
+			}
+		case "bulk":
+			m.SetBulk()
+			names["Precedence"], names["X-Auto-Response-Suppress"] = true, true
+			b.HdrWant["Precedence"] = "bulk"
+			b.HdrWant["X-Auto-Response-Suppress"] = "All"
+		case "importance":
+			imp := []mail.Importance{mail.ImportanceLow, mail.ImportanceHigh, mail.ImportanceNonUrgent, mail.ImportanceUrgent, mail.ImportanceNormal}[len(v)%5]
+			m.SetImportance(imp)
+			if imp != mail.ImportanceNormal {
+				names["Importance"], names["Priority"], names["X-Priority"], names["X-MSMail-Priority"] = true, true, true, true
+				b.HdrWant["Importance"] = imp.String()
+			}
+		case "hdr": // the deprecated aliases of SetGenHeader / SetGenHeaderPreformatted
+			m.SetHeader(mail.Header("X-Verif-Gen"), v) //nolint:staticcheck
+			names["X-Verif-Gen"] = true
+			b.HdrWant["X-Verif-Gen"] = v
+		case "hdrpre":
+			m.SetHeaderPreformatted(mail.Header("X-Verif-Pre"), "first line\r\n second line") //nolint:staticcheck
+			names["X-Verif-Pre"] = true
+		case "mdnadd":
+			if err := m.RequestMDNTo("mdn0@from.test"); err != nil {
+				b.SetErr = append(b.SetErr, "mdnadd")
+			} else if err := m.RequestMDNAddToFormat(v, "mdn@from.test"); err != nil {
+				b.SetErr = append(b.SetErr, "mdnadd")
+				names["Disposition-Notification-To"] = true
+			} else {
+				names["Disposition-Notification-To"] = true
+				b.HdrWant["Disposition-Notification-To:name"] = v
+			}
 		case "mdnname":
 			if err := m.RequestMDNToFormat(v, "mdn@from.test"); err != nil {
 				b.SetErr = append(b.SetErr, "mdnname")
@@ -1259,7 +1299,7 @@ func Analyse(r *rec.Recorder, out []byte, b *Built, tmpdir, tag string, k int) {
 		}
 		if sub == "name" { // display name of the address with the mailbox this setter used (read back with net/mail)
 			box := map[string]string{"From": "sender@from.test", "To": "second@to.test",
-				"Disposition-Notification-To": "mdn@from.test"}[field]
+				"Disposition-Notification-To": "mdn@from.test", "Reply-To": "reply@from.test"}[field]
 			got = "<no such address>"
 			if list, perr := netmail.ParseAddressList(raw); perr != nil {
 				got = "<unparsable address list: " + perr.Error() + ">"
